@@ -411,7 +411,7 @@ static void deffmt_eval(uint64_t index, void *ctx) {
         struct lres r;
         if (!galloc_is_live(s))
             bee_fail("line-string-not-owned", "%s: output string is not a live block of the formatter's allocator", what);
-        else if (s->len + sizeof(struct aws_string) > galloc_size_of(s))
+        else if (offsetof(struct aws_string, bytes) + s->len > galloc_size_of(s)) /* the bytes must lie inside the block, however tightly it was sized */
             bee_fail("line-exceeds-buffer", "%s: string length %zu exceeds its allocation", what, s->len);
         else if (check_line(s->bytes, s->len, &e, &r) == 0) {
             if (msglen > 0) V_COUNT("nontrivial", 1);
